@@ -102,6 +102,10 @@ pub trait Prop: Sync + Send {
     fn must_reach(&self, _tier: Tier) -> Vec<&'static str> {
         vec![]
     }
+    /// extra whole-batch scenarios executed once after the seeded search (e.g. cross-process comparison)
+    fn post_batch(&self, _seed: u64, _total: u64, _tier: Tier) -> Vec<Scenario> {
+        vec![]
+    }
 }
 
 pub fn registry() -> Vec<Box<dyn Prop>> {
